@@ -268,7 +268,7 @@ def result_shape(step, action):
     return (bool(spec.get("env")) and any(e[0].startswith("process:") for e in spec["env"]), spec.get("env") is None, bool(spec["exec_d"]), bool(spec["sboms"]))
 
 
-def run_history(mon, base, hid, steps, names, sh):
+def run_history(mon, base, hid, steps, names, sh, snapshots_out=None):
     root = os.path.join(base, "h%s" % hid)
     layers = os.path.join(root, "layers")
     src = os.path.join(root, "src")
@@ -306,6 +306,8 @@ def run_history(mon, base, hid, steps, names, sh):
                     vp.rmtree(os.path.join(layers, step["name"] + suf))
                 post = vp.snapshot(layers)
             pre = post
+            if snapshots_out is not None:
+                snapshots_out.append(post)
         case.pop("failing_step", None)
         if len(steps) >= 3 and any(s["op"] == "restore" for s in steps):
             sh.sample({"history": [s["op"] + (":%s/%s/%s" % (s.get("name"), s.get("impl"), s.get("strategy")) if s["op"] == "handle" else "") for s in steps],
